@@ -24,7 +24,8 @@ theorem observer_preserves_obs_state (c : Cfg) (s : State) (op : Op) (h : op.isO
 /-- `summary`, `cost`, `get_cost` do not even touch the RNG; only an `export` that builds new layers
 (PIT, MPS) advances it. -/
 theorem observer_rng (c : Cfg) (s : State) (op : Op) (h : op.isObserver = true) :
-    (step c s op).1.rng = s.rng ∨ ((op = .exportNet ∨ op = .exportNoBn) ∧ exportDraws c = true) := by
+    (step c s op).1.rng = s.rng ∨
+      ((op = .exportNet ∨ op = .exportNoBn ∨ op = .exportRaises) ∧ exportDraws c = true) := by
   cases op with
   | exportNet => by_cases hd : exportDraws c = true <;> simp [step, exportStep, hd]
   | exportNoBn => by_cases hd : exportDraws c = true <;> simp [step, exportStep, hd]
@@ -35,6 +36,7 @@ theorem observer_rng (c : Cfg) (s : State) (op : Op) (h : op.isObserver = true) 
   | setSpec k => simp [Op.isObserver] at h
   | forward => simp [Op.isObserver] at h
   | optStep => simp [Op.isObserver] at h
+  | exportRaises => by_cases hd : exportDraws c = true <;> simp [step, hd]
 
 /-- a call that raises leaves the state untouched altogether -/
 theorem failed_cost_leaves_state (c : Cfg) (s : State) (op : Op) (h : (step c s op).2 = .err) :
@@ -49,6 +51,7 @@ theorem failed_cost_leaves_state (c : Cfg) (s : State) (op : Op) (h : (step c s 
   | setSpec k => simp [step] at h
   | forward => simp [step, forwardStep] at h
   | optStep => simp [step, optStepStep] at h
+  | exportRaises => simp [step] at h
 
 /-- **any number of calls in any order** — for every sequence of observer calls. -/
 theorem observers_invisible (c : Cfg) (s : State) (ops : List Op) (h : ∀ op ∈ ops, op.isObserver = true) :
@@ -192,6 +195,19 @@ theorem pinned_summary_not_observer :
 `'a'` was queried first -/
 example : (step pitFrozenBn frozenBn0 .exportNet).1.bntrain = false ∧
     (step pitFrozenBn (step pitFrozenBn frozenBn0 .getCost).1 .getCostB).2 = (step pitFrozenBn frozenBn0 .getCostB).2 := by
+  decide
+
+/-- **a failing observer is an observer too**: an `export()` whose conversion raises leaves training
+modes, sampled coefficients, parameters, buffers and specification as it found them (instance of
+`observer_preserves_obs_state`; the restore sits in a `finally`) … -/
+theorem raising_export_leaves_state (c : Cfg) (s : State) :
+    obsStateExact (step c s .exportRaises).1 = obsStateExact s ∧ (step c s .exportRaises).2 = .raised :=
+  ⟨step_observer_core c s .exportRaises rfl, rfl⟩
+
+/-- … while before 46df6ea it left every module in eval mode with the eval-mode coefficients -/
+theorem raising_export_without_finally_not_observer :
+    obsState (stepNoFinally mpsTrain training0 .exportRaises).1 ≠ obsState training0 ∧
+    (step mpsTrain (stepNoFinally mpsTrain training0 .exportRaises).1 .cost).2 ≠ (step mpsTrain training0 .cost).2 := by
   decide
 
 /-- the repaired calls on the same witnesses -/
